@@ -225,7 +225,8 @@ class Gen:
         if not is_main:
             for _ in range(r.randrange(0, 4)):
                 pname = self.fresh("a")
-                kind = r.choice(["val", "val", "slice", "ptr", "sliceptr", "ptrptr", "word", "structview",
+                kind = r.choice(self.o.get("param_kinds") or
+                                ["val", "val", "slice", "ptr", "sliceptr", "ptrptr", "word", "structview",
                                  "ptrstruct", "ptrarr"])
                 if kind == "val":
                     params.append((pname, P(self.pick_prim()), "val"))
@@ -261,6 +262,17 @@ class Gen:
         for pn, ty, k in params:
             env.add(pn, ty, "param_" + k)
         body = self.gen_block_body(env, self.o["max_stmts"], 0, top=True)
+        if self.o.get("force_param_writes"):
+            # every pointer parameter is really written through (C08: the legitimate channel must be exercised)
+            for ty, ref, w in env.all_scalar_paths():
+                v = env.vars.get(ref[0])
+                if w and v and v["kind"] == "param_ptr" and ty[1] != "bool" and r.random() < 0.8:
+                    if ty[1] in INTS:
+                        e = ("bin", ty, "+", ("read", ty, ref), ("lit", ty, 1))
+                    else:
+                        e = self.gen_expr(env, ty, 1)
+                    body.append(("assign", ref, e))
+                    self.hit("stmt:forced_param_write")
         # observe state at the end
         body.extend(self.observe_all(env))
         f["body"] = body
@@ -357,6 +369,7 @@ class Gen:
             name = self.fresh("p")
             out.append(("var", name, pty, ("addr", pty, ref)))
             env.add(name, pty, "local", points_to_local=True)
+            env.note_points_to(name, ref[0])
             self.hit("stmt:ptrvar:d%d" % ptr_depth(pty))
         elif c == "addrassign":
             ptrs = [(n, v) for n, v in env.vars.items() if v["ty"][0] == "ptr" and v["kind"] == "local"]
@@ -370,6 +383,7 @@ class Gen:
                 return self.gen_statement_simple(env, out)
             _ty, ref, pty = r.choice(cands)
             out.append(("addrassign", ptr_depth(want), pn, ("addr", pty, ref)))
+            env.note_points_to(pn, ref[0])
             self.hit("stmt:addrassign:d%d" % ptr_depth(want))
         elif c == "assign":
             targets = env.writable_refs()
@@ -509,19 +523,35 @@ class Gen:
         fs = self.callable_funcs(env, False)
         if not fs:
             return self.gen_statement_simple(env, out)
-        f = r.choice(fs)
-        args = self.gen_args(env, f)
+        # prefer functions that take pointers: they are the interesting ones
+        withptr = [f for f in fs if any(k == "ptr" for _n, _t, k in f["params"])]
+        f = r.choice(withptr) if withptr and r.random() < 0.5 else r.choice(fs)
+        args = self.gen_args(env, f, out)
         if args is None:
             return self.gen_statement_simple(env, out)
         call = ("call", f["ret"], f["name"], args)
         pre = []
         post = []
         if self.o["call_observe"]:
-            snap = env.scalar_refs(only_locals=True)
-            for ty, ref in snap:
-                pre.append(("print", [("str", None, b"<"), ("read", ty, ref), ("str", None, b"\n")]))
-                post.append(("print", [("str", None, b">"), ("read", ty, ref), ("str", None, b"\n")]))
-            out.append(("observe_pre", [ref for _t, ref in snap], call))
+            # bracket the call with prints of every caller-local, non-pointer scalar (C08 non-interference monitor)
+            snap = [(t_, ref) for t_, ref in env.scalar_refs(only_locals=True)
+                    if env.vars[ref[0]]["ty"][0] != "ptr"]
+            self.uid += 1
+            cid = self.uid
+            for k, (ty, ref) in enumerate(snap):
+                pre.append(("print", [("str", None, ("<%d:%d=" % (cid, k)).encode()), ("read", ty, ref), ("str", None, b"\n")]))
+                post.append(("print", [("str", None, (">%d:%d=" % (cid, k)).encode()), ("read", ty, ref), ("str", None, b"\n")]))
+            allowed = set()
+            for a in args:
+                if a[0] == "addr":
+                    allowed.add(a[2][0])
+                    allowed |= env.points_to_closure(a[2][0])
+            if not hasattr(self.prog, "observe"):
+                self.prog.observe = {}
+            self.prog.observe[cid] = {"bases": [ref[0] for _t, ref in snap], "allowed": sorted(allowed),
+                                      "callee": f["name"], "caller": env.func["name"] if env.func else "?"}
+            if snap:
+                env.effectful = True
         out.extend(pre)
         if f["ret"] is None:
             out.append(("callstmt", call))
@@ -534,9 +564,24 @@ class Gen:
             env.effectful = True
         self.hit("stmt:call:" + ("effectful" if f["effectful"] else "pure"))
 
-    def gen_args(self, env, f):
-        """Arguments for f; None if the environment cannot provide one. Each base variable is
-        used at most once among by-reference arguments (no aliasing inside one call)."""
+    def make_target(self, env, out, ty):
+        """Declare a fresh local of type ty (so that its address can be passed); returns its name."""
+        name = self.fresh("t")
+        if ty[0] == "ptr":
+            inner = self.make_target(env, out, ty[1])
+            out.append(("var", name, ty, ("addr", ty, (inner, ()))))
+            env.add(name, ty, "local")
+            env.note_points_to(name, inner)
+        else:
+            out.append(("var", name, ty, self.gen_value(env, ty, 1)))
+            env.add(name, ty, "local")
+        self.hit("stmt:made_target:" + ty[0])
+        return name
+
+    def gen_args(self, env, f, out=None):
+        """Arguments for f; None if the environment cannot provide one (and no statement list is given
+        to declare a fresh target in). Each base variable is used at most once among by-reference
+        arguments (no aliasing inside one call)."""
         r = self.rng
         used = set()
         args = []
@@ -574,16 +619,23 @@ class Gen:
             if ty[0] == "sliceptr":
                 cands = [(n, v) for n, v in env.vars.items() if n not in used and v["kind"] != "const" and
                          ((v["ty"][0] == "a" and v["ty"][2] == ty[1] and v["kind"] == "local") or v["ty"] == ty)]
-                if not cands:
-                    return None
-                n, v = r.choice(cands)
+                if not cands or (out is not None and r.random() < 0.25):
+                    if out is None:
+                        return None
+                    n = self.make_target(env, out, ("a", r.randrange(1, 5), ty[1]))
+                    v = env.vars[n]
+                else:
+                    n, v = r.choice(cands)
                 used.add(n)
                 args.append(("addr", ty, (n, ())))
                 self.hit("arg:sliceptr:" + ("array" if v["ty"][0] == "a" else "pass_on"))
                 continue
             cands = [(t_, ref, pty) for t_, ref, pty in env.addressable() if pty == ty and ref[0] not in used]
-            if not cands:
-                return None
+            if not cands or (out is not None and r.random() < 0.2):
+                if out is None:
+                    return None
+                n = self.make_target(env, out, ty[1])
+                cands = [(ty[1], (n, ()), ty)]
             _t, ref, pty = r.choice(cands)
             used.add(ref[0])
             args.append(("addr", pty, ref))
@@ -772,6 +824,29 @@ class Env:
     def add(self, name, ty, kind, readonly=False, points_to_local=False):
         self.vars[name] = {"ty": ty, "kind": kind, "readonly": readonly}
         self.declared_here.append(name)
+
+    def note_points_to(self, pname, target):
+        root = self
+        while root.parent is not None:
+            root = root.parent
+        if not hasattr(root, "may_point"):
+            root.may_point = {}
+        root.may_point.setdefault(pname, set()).add(target)
+
+    def points_to_closure(self, name):
+        root = self
+        while root.parent is not None:
+            root = root.parent
+        mp = getattr(root, "may_point", {})
+        seen = set()
+        work = [name]
+        while work:
+            n = work.pop()
+            for t in mp.get(n, ()):
+                if t not in seen:
+                    seen.add(t)
+                    work.append(t)
+        return seen
 
     def lookup(self, name):
         return self.vars.get(name)
